@@ -19,9 +19,8 @@ def nbytes(v):
 
 def push_bytes(v, push0=False):
     """size of PUSH v : opcode + immediate ; PUSH0 when enabled and v == 0"""
-    if push0:
-        return ite(v == 0, 1, 1 + nbytes(v))
-    return 1 + nbytes(v)
+    from pyvc.sym import sand
+    return ite(sand(push0, v == 0), 1, 1 + nbytes(v))
 
 
 PSEUDO_PUSH_BYTES = {
